@@ -44,17 +44,22 @@ const (
 	kS        // SetSessionState
 	kB        // BuildHandshakeState
 	kH        // Handshake
+	kE        // a documented edit of the hello between builds: SetClientRandom, SetSNI, session id
+	nKinds
 )
 
-var kindName = []string{"C", "W", "T", "P", "S", "B", "H"}
+var kindName = []string{"C", "W", "T", "P", "S", "B", "H", "E"}
 
-// arg: T: 0 nil, 1 real TLS1.2 session (Initialized), 2 forged (Initialized), 3 empty not initialized, 4 ticket bytes but not initialized
-//      P: 0 nil, 1 real TLS1.3 psk (initialized), 2 empty not initialized
+// arg: T: 0 nil, 1 real TLS1.2 session (Initialized), 2 forged (Initialized), 3 empty not initialized, 4 ticket bytes but not initialized,
+//         5 reuse: fill the ISessionTicketExtension found in uconn.Extensions with the real session and pass that object (fresh object if none)
+//      P: 0 nil, 1 real TLS1.3 psk (initialized), 2 empty not initialized,
+//         3 reuse: InitializeByUtls on the UtlsPreSharedKeyExtension found in uconn.Extensions and pass that object (fresh object if none)
 //      S: 0 nil session, 1 real TLS1.2 session, 2 forged
+//      E: 1 SetClientRandom, 2 SetSNI(same length), 3 SetSNI(longer), 4 new session id
 type op struct{ k, arg int }
 
 func (o op) String() string {
-	if o.k == kT || o.k == kP || o.k == kS {
+	if o.k == kT || o.k == kP || o.k == kS || o.k == kE {
 		return fmt.Sprintf("%s%d", kindName[o.k], o.arg)
 	}
 	return kindName[o.k]
@@ -70,9 +75,9 @@ func opsString(ops []op) string {
 // initialized session carried by the op: 0 none, 1 ticket, 2 psk
 func (o op) injects() int {
 	switch {
-	case o.k == kT && (o.arg == 1 || o.arg == 2), o.k == kS:
+	case o.k == kT && (o.arg == 1 || o.arg == 2 || o.arg == 5), o.k == kS:
 		return 1
-	case o.k == kP && o.arg == 1:
+	case o.k == kP && (o.arg == 1 || o.arg == 3):
 		return 2
 	}
 	return 0
@@ -123,11 +128,13 @@ func coqOp(o op) string {
 		return "Build"
 	case kH:
 		return "Handshake"
+	case kE:
+		return "EditHello"
 	case kT:
 		return []string{"SetTicket None", "SetTicket (Some (true, [1], 1))", "SetTicket (Some (true, [2], 2))",
-			"SetTicket (Some (false, [], 0))", "SetTicket (Some (false, [1], 0))"}[o.arg]
+			"SetTicket (Some (false, [], 0))", "SetTicket (Some (false, [1], 0))", "SetTicket (Some (true, [1], 1))"}[o.arg]
 	case kP:
-		return []string{"SetPsk None", "SetPsk (Some (true, [3], 3))", "SetPsk (Some (false, [], 0))"}[o.arg]
+		return []string{"SetPsk None", "SetPsk (Some (true, [3], 3))", "SetPsk (Some (false, [], 0))", "SetPsk (Some (true, [3], 3))"}[o.arg]
 	case kS:
 		return []string{"SetState None", "SetState (Some ([1], 1))", "SetState (Some ([2], 2))"}[o.arg]
 	}
@@ -216,6 +223,7 @@ func classifyPanic(v any) outcome {
 }
 
 type observation struct {
+	coqOps    []string // the call as made (a reuse call falls back to a fresh object when the list has none)
 	outs      []outcome
 	keysOK    []int // -1 not observed, 0 false, 1 true
 	sess      []int64
@@ -339,8 +347,10 @@ func (e *env) runCase(p parrot, w worldCfg, ops []op) (ob observation, err error
 	}
 	u := tls.UClient(rec, cfg, p.id)
 	ob.hsIndex = -1
+	sniNames := []string{serverName, "c21.verif.test", "a-longer-name.c20.verif.test"}
 	for i, o := range ops {
 		var out outcome
+		coq := coqOp(o)
 		func() {
 			defer func() {
 				if r := recover(); r != nil {
@@ -361,8 +371,35 @@ func (e *env) runCase(p parrot, w worldCfg, ops []op) (ob observation, err error
 				}
 				ob.handshook = true
 				cerr = u.Handshake()
+			case kE:
+				switch o.arg {
+				case 1:
+					cerr = u.SetClientRandom(bytes.Repeat([]byte{0x42}, 32))
+				case 2:
+					u.SetSNI(sniNames[1])
+				case 3:
+					u.SetSNI(sniNames[2])
+				case 4:
+					if u.HandshakeState.Hello != nil {
+						u.HandshakeState.Hello.SessionId = bytes.Repeat([]byte{0x24}, 32)
+					}
+				}
 			case kT:
 				switch o.arg {
+				case 5:
+					var found *tls.SessionTicketExtension
+					for _, x := range u.Extensions {
+						if t, ok := x.(*tls.SessionTicketExtension); ok && found == nil {
+							found = t
+						}
+					}
+					if found != nil {
+						found.Session, found.Ticket, found.Initialized = e.ss12, e.tk12, true
+						coq = "ReuseTicket ([1], 1)"
+						cerr = u.SetSessionTicketExtension(found)
+					} else {
+						cerr = u.SetSessionTicketExtension(&tls.SessionTicketExtension{Session: e.ss12, Ticket: e.tk12, Initialized: true})
+					}
 				case 0:
 					cerr = u.SetSessionTicketExtension(nil)
 				case 1:
@@ -387,6 +424,25 @@ func (e *env) runCase(p parrot, w worldCfg, ops []op) (ob observation, err error
 					cerr = u.SetPskExtension(x)
 				case 2:
 					cerr = u.SetPskExtension(&tls.UtlsPreSharedKeyExtension{})
+				case 3:
+					x, perr := e.pskExt()
+					if perr != nil {
+						err = perr
+						return
+					}
+					var found *tls.UtlsPreSharedKeyExtension
+					for _, y := range u.Extensions {
+						if t, ok := y.(*tls.UtlsPreSharedKeyExtension); ok && found == nil {
+							found = t
+						}
+					}
+					if found != nil {
+						found.InitializeByUtls(x.Session, x.EarlySecret, x.BinderKey, x.Identities)
+						coq = "ReusePsk ([3], 3)"
+						cerr = u.SetPskExtension(found)
+					} else {
+						cerr = u.SetPskExtension(x)
+					}
 				}
 			case kS:
 				switch o.arg {
@@ -404,6 +460,7 @@ func (e *env) runCase(p parrot, w worldCfg, ops []op) (ob observation, err error
 			return
 		}
 		ob.outs = append(ob.outs, out)
+		ob.coqOps = append(ob.coqOps, coq)
 		if ob.handshook {
 			ob.keysOK = append(ob.keysOK, -1)
 			ob.sess = append(ob.sess, -1)
@@ -440,7 +497,7 @@ func (e *env) coqCase(p parrot, w worldCfg, ops []op, ob observation) string {
 	ks := make([]string, len(ops))
 	ss := make([]string, len(ops))
 	for i := range ops {
-		cops[i] = coqOp(ops[i])
+		cops[i] = ob.coqOps[i]
 		outs[i] = ob.outs[i].coq()
 		ks[i] = vh.Opt(ob.keysOK[i] >= 0, vh.Bool(ob.keysOK[i] == 1))
 		ss[i] = vh.Opt(ob.sess[i] >= 0, fmt.Sprint(ob.sess[i]))
@@ -582,7 +639,7 @@ func (e *env) oracle(c *vh.Ctx, p parrot, w worldCfg, ops []op, ob observation) 
 	switch injOp.k {
 	case kT, kS:
 		sid = "ticket"
-		want = map[int][]byte{1: e.tk12, 2: e.tkForged, 0: nil}[injOp.arg]
+		want = map[int][]byte{1: e.tk12, 2: e.tkForged, 0: nil, 5: e.tk12}[injOp.arg]
 		if ob.wire != nil && len(ob.wire.tickets) == 1 {
 			got, present = ob.wire.tickets[0], true
 		}
@@ -628,9 +685,11 @@ func hasOp(ops []op, k int) bool {
 func argsFor(k int, rng func(int) int) int {
 	switch k {
 	case kT:
-		return []int{1, 1, 2, 2, 3, 3, 0}[rng(7)]
+		return []int{1, 1, 2, 2, 3, 3, 0, 5, 5}[rng(9)]
 	case kP:
-		return []int{1, 1, 1, 2, 0}[rng(5)]
+		return []int{1, 1, 1, 2, 0, 3, 3}[rng(7)]
+	case kE:
+		return 1 + rng(4)
 	case kS:
 		return []int{1, 2, 0}[rng(3)]
 	}
@@ -723,10 +782,17 @@ func run(c *vh.Ctx) {
 			do("corpus", p, w, []op{{kC, 0}, {kB, 0}, {kT, 1}})
 			do("corpus", p, w, []op{{kC, 0}, {kT, 1}, {kP, 1}})
 			do("corpus", p, w, []op{{kT, 1}, {kH, 0}})
+			// inspect the hello, edit it, then handshake; fill the extension found in the inspected hello
+			do("corpus", p, w, []op{{kC, 0}, {kP, 1}, {kB, 0}, {kE, 1}, {kH, 0}})
+			do("corpus", p, w, []op{{kC, 0}, {kT, 1}, {kB, 0}, {kE, 3}, {kH, 0}})
+			do("corpus", p, w, []op{{kC, 0}, {kW, 0}, {kP, 3}, {kH, 0}})
+			do("corpus", p, w, []op{{kC, 0}, {kW, 0}, {kT, 5}, {kB, 0}, {kH, 0}})
+			do("corpus", p, w, []op{{kC, 0}, {kW, 0}, {kE, 2}, {kP, 3}, {kB, 0}, {kE, 4}, {kH, 0}})
 			for _, hit := range []int{12, 13} {
 				wh := w
 				wh.hit = hit
 				do("corpus", p, wh, []op{{kC, 0}, {kH, 0}})
+				do("corpus", p, wh, []op{{kC, 0}, {kB, 0}, {kE, 1}, {kH, 0}})
 				do("corpus", p, wh, []op{{kC, 0}, {kW, 0}, {kT, 3}, {kB, 0}, {kH, 0}})
 				do("corpus", p, wh, []op{{kC, 0}, {kP, 2}, {kW, 0}, {kH, 0}})
 			}
@@ -746,7 +812,7 @@ func run(c *vh.Ctx) {
 		if n == 0 {
 			return
 		}
-		for k := 0; k < 7; k++ {
+		for k := 0; k < nKinds; k++ {
 			gen(append(prefix, op{k, 0}), n-1)
 		}
 	}
@@ -757,7 +823,7 @@ func run(c *vh.Ctx) {
 		for _, o := range ks {
 			// once Handshake ran, HandshakeState belongs to the handshake: only Handshake again and the (then
 			// forbidden) setters are documented calls
-			if hs && (o.k == kC || o.k == kW || o.k == kB) {
+			if hs && (o.k == kC || o.k == kW || o.k == kB || o.k == kE) {
 				continue
 			}
 			hs = hs || o.k == kH
@@ -778,7 +844,7 @@ func run(c *vh.Ctx) {
 		l := maxLen + 1 + c.Rng.Intn(sampleLen-maxLen)
 		ks := make([]op, l)
 		for i := range ks {
-			ks[i] = op{c.Rng.Intn(7), 0}
+			ks[i] = op{c.Rng.Intn(nKinds), 0}
 		}
 		emit(fmt.Sprintf("sample_len%d", l), ks)
 	}
